@@ -52,7 +52,8 @@ def init_zygote():
 # --------------------------------------------------------------------------
 # generation of specs
 
-NAMES_S = ["Linus", "Arnold", "Jerry", "Elizer", "A very long name which needs truncation", "", "ü-ñ", "x"]
+NAMES_S = ["Linus", "Arnold", "Jerry", "Elizer", "A very long name which needs truncation", "", "ü-ñ", "x",
+           "a|b", " padded ", "semi;colon,comma:colon", "Jerry"]
 
 
 def gen_enum(rng):
@@ -151,6 +152,12 @@ PP_VALUES = [
     {"1": "digit key", "s": "str key", "z": [{"p": 1, "q": [10, 20]}]},
     [],
     {"long": "x" * 210, "n": -1.5e10},
+    {"neg0": -0.0, "big": 10 ** 30, "t": True, "f": False, "e": "", "q": "say \"hi\"", "nl": "two\nlines", "u": "ünï ©"},
+    [[[[[["deep"]]]]], {"a": {"b": {"c": {"d": {"e": {}}}}}}],
+    [0.1 * i for i in range(60)],
+    ["w" * 70, "v" * 70, "u" * 70],
+    {"k": ["x" * 148, "y"], "z": ["y" * 149]},
+    [True, False, None, 0, 1, "", [], {}, [[]], [{}]],
 ]
 
 
